@@ -167,6 +167,8 @@ pub enum Op {
     SecondFin(Ty, i8),
     /// 4.5: data at the known final size
     DataBeyondFinal(Ty),
+    /// 4.5: data that starts below the known final size and extends one byte beyond it
+    DataStraddlingFinal(Ty),
     /// 4.5: RESET_STREAM whose final size differs from the FIN's by +1 / -1
     ResetFinalMismatch(Ty, i8),
     /// 4.5: RESET_STREAM whose final size is below data already sent
@@ -714,6 +716,9 @@ impl Sys for Threadbound<Adv> {
                     v.push(Op::SecondFin(ty, -1));
                 }
                 v.push(Op::DataBeyondFinal(ty));
+                if f >= 1 {
+                    v.push(Op::DataStraddlingFinal(ty));
+                }
                 v.push(Op::ResetFinalMismatch(ty, 1));
                 if f >= 1 {
                     v.push(Op::ResetFinalMismatch(ty, -1));
@@ -904,6 +909,20 @@ impl Adv {
                     allowed.push(FLOW);
                 }
                 s.offend(&what, "RFC 9000 4.5: FINAL_SIZE_ERROR for data at or beyond the final size", &allowed, !terminal, bytes)?;
+            }
+            Op::DataStraddlingFinal(ty) => {
+                let st = s.m.get(ty, 0);
+                let f = st.fin.unwrap();
+                let id = s.peer_id(ty, 0);
+                // the byte below the final size repeats what was honestly sent there
+                let data = [prf_byte(key_of(ty, 0), f - 1), JUNK];
+                let bytes = s.stream_frame(id, f - 1, &data, false);
+                let terminal = st.read == f;
+                let mut allowed = vec![FINAL];
+                if f + 1 > st.adv_limit {
+                    allowed.push(FLOW);
+                }
+                s.offend(&what, "RFC 9000 4.5: FINAL_SIZE_ERROR for data extending beyond the final size", &allowed, !terminal, bytes)?;
             }
             Op::ResetFinalMismatch(ty, d) => {
                 let st = s.m.get(ty, 0);
